@@ -118,6 +118,36 @@ def recordValue (h : Hist) (v : Int) : Option Hist := recordValues h v 1
 def recordAll (h : Hist) (vs : List Int) : Hist :=
   vs.foldl (fun h v => (recordValue h v).getD h) h
 
+/-- `Reset`: counts and total cleared, configuration kept -/
+def reset (h : Hist) : Hist := { h with counts := List.replicate h.counts.length 0, total := 0 }
+
+/-- the back-fill loop of `RecordCorrectedValue`: record `m`, `m - ei`, … while `m ≥ ei`; stops at the first
+rejected value with what has been recorded so far (`false` = the error return).  `fuel` bounds the number of rounds. -/
+def correctedLoop : Nat → Hist → Int → Int → Hist × Bool
+  | 0, h, _, _ => (h, true)
+  | fuel+1, h, m, ei =>
+    if m ≥ ei then
+      match recordValue h m with
+      | none => (h, false)
+      | some h' => correctedLoop fuel h' (m - ei) ei
+    else (h, true)
+
+/-- `RecordCorrectedValue(v, expectedInterval)` -/
+def recordCorrected (h : Hist) (v ei : Int) : Hist × Bool :=
+  match recordValue h v with
+  | none => (h, false)
+  | some h1 =>
+    if ei ≤ 0 ∨ v ≤ ei then (h1, true)
+    else correctedLoop v.toNat h1 (v - ei) ei
+
+/-- the values `RecordCorrectedValue(v, ei)` stands for: `v`, and for a stall (`v > ei > 0`) every `v - k·ei ≥ ei` -/
+def correctedValuesFrom : Nat → Int → Int → List Int
+  | 0, _, _ => []
+  | fuel+1, m, ei => if m ≥ ei then m :: correctedValuesFrom fuel (m - ei) ei else []
+
+def correctedValues (v ei : Int) : List Int :=
+  v :: (if ei ≤ 0 ∨ v ≤ ei then [] else correctedValuesFrom v.toNat (v - ei) ei)
+
 /-! ### the iterator, as the list of positions it visits -/
 
 structure IterPos where
